@@ -12,7 +12,8 @@ Inductive case :=
 | JobCase (wc deadline : N) (steps : list (op * obs))
 (* a real operator: runners, barriers of checkpoint a from [first] before the second deploy (observed results),
    then barriers of checkpoint b from every runner in order [second] (observed results) *)
-| SlotCase (runners : list N) (a : N) (first : list N) (r1 : list N)
+| SlotCase (pre_ok : bool)             (* a retention update before the first deploy was answered without error / panic *)
+           (runners : list N) (a : N) (first : list N) (r1 : list N)
            (late : list N) (rl : list N)      (* stale barriers of a that arrive AFTER the second deploy (observed results) *)
            (b : N) (second : list N) (r2 : list N).
 
@@ -228,7 +229,8 @@ Definition check_case (c : case) : list N :=
   match c with
   | JobCase w dl steps =>
       diff_steps (MkCfg (N.to_nat w) dl current) init steps ++ spec_steps (N.to_nat w) dl sp0 steps
-  | SlotCase runners a first r1 late rl b second r2 => slot_check runners a first r1 late rl b second r2
+  | SlotCase pre_ok runners a first r1 late rl b second r2 =>
+      (if pre_ok then [] else [104]) ++ slot_check runners a first r1 late rl b second r2
   end.
 
 Definition run (cases : list (N * case)) : list (N * N) :=
